@@ -40,7 +40,8 @@ Section PairsExact.
     destruct (cand (shape_bounds sh)) as [|c0 ct] eqn:Ec.
     - inversion H; subst ls. split; [constructor|].
       intros l. split; [intros []|]. intros [Hl Hh].
-      pose proof (Hcomplete (shape_bounds sh) l Hl (Hbb l Hl Hh)) as Hin.
+      destruct (Hbb l Hl Hh) as [Hfin Hout].
+      pose proof (Hcomplete (shape_bounds sh) l Hfin Hl Hout) as Hin.
       rewrite Ec in Hin. exact Hin.
     - destruct (array_intersects a sh (Some (c0 :: ct))) as [[m|]|] eqn:Ea; try discriminate.
       assert (Hls : ls = map fst (filter snd (combine (c0 :: ct) m))) by congruence.
@@ -53,7 +54,7 @@ Section PairsExact.
         * intros [Hin Hh]. split; [|exact Hh]. apply (Hrange (shape_bounds sh)).
           rewrite Ec. exact Hin.
         * intros [Hl Hh]. split; [|exact Hh]. rewrite <- Ec.
-          apply Hcomplete; [exact Hl|]. exact (Hbb l Hl Hh).
+          destruct (Hbb l Hl Hh) as [Hfin Hout]. apply Hcomplete; assumption.
   Qed.
 
   Lemma pairs_from_spec : forall rgeoms i ps,
